@@ -245,6 +245,11 @@ func awsChunked(payload []byte, sizes []int, lie string) []byte {
 			fmt.Fprintf(&b, "zz;chunk-signature=%s\r\n", chunkSig)
 		case lie == "nosig" && first:
 			fmt.Fprintf(&b, "%x\r\n", n)
+		case strings.HasPrefix(lie, "sig") && (first || i == 2):
+			// a chunk-signature that is not 64 characters long (first and, to
+			// land after payload bytes too, second chunk)
+			m, _ := strconv.Atoi(lie[3:])
+			fmt.Fprintf(&b, "%x;chunk-signature=%s\r\n", n, strings.Repeat("ab", m)[:m])
 		default:
 			fmt.Fprintf(&b, "%x;chunk-signature=%s\r\n", n, chunkSig)
 		}
